@@ -1,6 +1,7 @@
 package rules
 
 import (
+	"go/token"
 	"golang.org/x/tools/go/ssa"
 
 	"verif/checker/internal/ir"
@@ -138,5 +139,60 @@ func runC08(c *Ctx) {
 			c.mustFollow(fn, "index tip != last file record", c.failEdges(geq), callTo(trunc), "truncateHeaders(fileHeight-tipHeight)", nil, 1)
 			c.guarded(fn, errNil("truncateHeaders", find(fn, callTo(trunc)), 0), 1, "return store after reconciliation", nil, 0, gDominate)
 		}
+	})
+
+	c.rule("C08.O7", "a write torn by a crash is cut off before the file is used again: newHeaderStore calls trimPartialHeader on the file it just opened and hands the store out only if that succeeded; trimPartialHeader leaves the file alone only when its size is a whole number of records (size % record size == 0) and otherwise truncates it to size - size % record size, both taken from the file's Stat and the header type's Size (the file is append-only: a fragment left behind shifts every later record, and the start-up reconciliation only removes whole records)", func() {
+		nh := c.fn("headerfs.newHeaderStore")
+		trim := c.hfs("headerFile", "trimPartialHeader")
+		calls := find(nh, callTo(trim))
+		var okRets []ssa.Instruction
+		for _, in := range find(nh, isExit) {
+			r := in.(*ssa.Return)
+			if len(r.Results) == 2 && !ir.IsNil(ir.RetVal(r, 0)) {
+				okRets = append(okRets, in)
+			}
+		}
+		c.guarded(nh, errNil("trimPartialHeader(hType)", calls, 0), 1, "return the opened store", okRets, 1, gDominate)
+		// the file trimmed is the one the store gets
+		tf := c.fn("(*headerfs.headerFile).trimPartialHeader")
+		truncFile := c.hfs("headerFile", "truncateFile")
+		sizeOfType := c.method("headerfs", "HeaderType", "Size")
+		isFileSize := func(v ssa.Value) bool {
+			call, ok := ir.Strip(v).(*ssa.Call)
+			if !ok || !call.Call.IsInvoke() || call.Call.Method.Name() != "Size" {
+				return false
+			}
+			return ir.DerivesFrom(call.Call.Value, func(x ssa.Value) bool {
+				cc, ok := x.(*ssa.Call)
+				return ok && cc.Call.IsInvoke() && cc.Call.Method.Name() == "Stat"
+			})
+		}
+		isRecSize := func(v ssa.Value) bool {
+			return ir.DerivesFrom(v, valIsCallTo(sizeOfType)) && !isFileSize(v)
+		}
+		isRem := func(v ssa.Value) bool {
+			b, ok := ir.Strip(v).(*ssa.BinOp)
+			return ok && b.Op == token.REM && isFileSize(b.X) && isRecSize(b.Y)
+		}
+		tr := find(tf, callTo(truncFile))
+		okArg := len(tr) >= 1
+		for _, in := range tr {
+			a := argsOf(in)
+			b, isB := ir.Strip(a[0]).(*ssa.BinOp)
+			if len(a) != 1 || !isB || b.Op != token.SUB || !isFileSize(b.X) || !isRem(b.Y) {
+				okArg = false
+			}
+		}
+		c.verdict(okArg, c.nm(tf)+" | truncates to size - size % record size", c.P.Pos(tf.Pos()), "truncateFile(fileSize - fileSize % recordSize)", "trimPartialHeader does not cut the file back to the last whole record (size - size % record size, with size from Stat and the record size from HeaderType.Size)", c.ats(tr)...)
+		// success without truncation only for a whole number of records
+		whole := equalIs("size % record size vs 0", find(tf, binops(eqOps, isRem, constIntIs(0))), true)
+		var nilRets []ssa.Instruction
+		for _, in := range find(tf, isExit) {
+			r := in.(*ssa.Return)
+			if len(r.Results) == 1 && ir.IsNil(r.Results[0]) {
+				nilRets = append(nilRets, in)
+			}
+		}
+		c.guarded(tf, whole, 1, "return nil without truncating", nilRets, 1, gDominate)
 	})
 }
